@@ -2,8 +2,11 @@
    [C27_mismatch] (model vs implementation) and the property monitor
    [C27_monitor] (implementation observations only). *)
 From WK Require Import Base.Base Base.Bytes Gen.Consts_C27.
-From WK Require Import Model.ClusterCodecBase Model.ClusterCodec_Replication.
+From WK Require Export Model.ClusterCodecBase Model.ClusterCodec_Replication.
 Open Scope N_scope.
+
+(* long byte strings arrive in chunks: (hxc "6869..." (hxc "..." [])) *)
+Definition hxc (s : string) (rest : bytes) : bytes := hx s ++ rest.
 
 (* what the harness hands over per codec: the generated value ([v], value mode
    only) and what the implementation's Decode returned on the case's bytes
@@ -18,6 +21,8 @@ Record c27_case := C27Case {
   c_data : bytes;          (* the bytes handed to Decode *)
   c_enc_ok : bool;         (* mode 0: Encode returned no error *)
   c_payload : c27_payload;
+  c_res_same : bool;       (* mode 0: Decode returned a value reflect.DeepEqual to the generated
+                              one; the payload's [res] is then left out (None) *)
   c_trunc_ok : list N;     (* mode 0: lengths of the strict prefixes Decode accepted *)
   c_alloc : N;             (* bytes allocated by Decode (c_data) *)
   c_alloc_trunc : N        (* mode 0: largest allocation among the prefix decodes *)
@@ -44,13 +49,17 @@ Definition mismatch_codec {A} (f : fmt A) (encode_m : A -> option bytes) (decode
   | _, _ => negb (res_eqb f (decode_m (c_data c)) res)
   end.
 
+(* what Decode returned: the payload's [res], or the generated value when the harness left it out *)
+Definition eff_res {A} (c : c27_case) (v res : option A) : option A :=
+  if c_res_same c then v else res.
+
 Definition C27_mismatch (c : c27_case) : bool :=
   match c_payload c with
   | PReplBatch bits v res =>
     let valid := valid_of bits in
-    mismatch_codec (exchangeBatch valid) (EncodeExchangeBatch valid) (DecodeExchangeBatch valid) c v res
+    mismatch_codec (exchangeBatch valid) (EncodeExchangeBatch valid) (DecodeExchangeBatch valid) c v (eff_res c v res)
   | PReplResult v res =>
-    mismatch_codec exchangeBatchResult EncodeExchangeBatchResult DecodeExchangeBatchResult c v res
+    mismatch_codec exchangeBatchResult EncodeExchangeBatchResult DecodeExchangeBatchResult c v (eff_res c v res)
   end.
 
 (* ---- the property on the implementation's observations ------------------------------------
@@ -91,7 +100,7 @@ Definition C27_monitor (c : c27_case) : N :=
   match c_payload c with
   | PReplBatch bits v res =>
     let f := exchangeBatch (valid_of bits) in
-    monitor_codec f (in_frame f) ReplAllocBase ReplAllocPerByte c v res
+    monitor_codec f (in_frame f) ReplAllocBase ReplAllocPerByte c v (eff_res c v res)
   | PReplResult v res =>
-    monitor_codec exchangeBatchResult (in_frame exchangeBatchResult) ReplAllocBase ReplAllocPerByte c v res
+    monitor_codec exchangeBatchResult (in_frame exchangeBatchResult) ReplAllocBase ReplAllocPerByte c v (eff_res c v res)
   end.
